@@ -384,6 +384,51 @@ fn handshakes(st: &mut Stats) {
     st.merge(s);
 }
 
+/// what the server writes through WebsocketStream::send for every payload length class
+fn server_sends(st: &mut Stats, quick: bool) {
+    let mut s = Stats::default();
+    let lens: Vec<usize> = if quick { vec![0, 1, 125, 126, 127, 65535, 65536, 65537] } else { vec![0, 1, 2, 124, 125, 126, 127, 128, 255, 256, 65534, 65535, 65536, 65537, 131072, 1 << 20] };
+    for &len in &lens {
+        for text in [false, true] {
+            s.evaluations += 1;
+            s.states += 1;
+            s.transitions += 2;
+            s.nontrivial += 1;
+            let payload: Vec<u8> = if text { (0..len).map(|i| b'a' + (i % 26) as u8).collect() } else { pattern(len.max(1))[..len].to_vec() };
+            let sock = ScriptSock::new("127.0.0.1:4000".parse().unwrap(), vec![Step::Eof]);
+            let p2 = payload.clone();
+            let handler = websocket_handler(move |mut ws: WebsocketStream, _st: Arc<()>| {
+                let m = if text { humphrey_ws::Message::new(&p2) } else { humphrey_ws::Message::new_binary(&p2) };
+                let _ = ws.send(m);
+                let _ = ws.send(humphrey_ws::Message::new("after"));
+            });
+            let r = std::panic::catch_unwind(std::panic::AssertUnwindSafe(|| handler(request_with_key(Some("dGhlIHNhbXBsZSBub25jZQ==")), Stream::Tcp(TcpStream::Script(sock.clone())), Arc::new(()))));
+            let out = sock.lock().unwrap().out.clone();
+            let ctx = |what: String| json!({"what": what, "payload_len": len, "text": text, "server_bytes_head": split_handshake(&out).map(|(_, a)| show(&a[..a.len().min(24)]))});
+            if r.is_err() {
+                s.violation("server send: panicked", || ctx("panic".into()));
+                continue;
+            }
+            let Some((_, after)) = split_handshake(&out) else {
+                s.violation("no handshake response written", || ctx("".into()));
+                continue;
+            };
+            match parse_server_frames(after) {
+                Ok(fr) => {
+                    let want = vec![(if text { 1u8 } else { 2u8 }, true, payload.clone()), (1u8, true, b"after".to_vec()), (8u8, true, vec![])];
+                    if fr != want {
+                        s.violation("server send: frames written differ from the messages sent", || ctx(format!("{:?}", fr.iter().map(|f| (f.0, f.1, f.2.len())).collect::<Vec<_>>())));
+                    } else {
+                        s.outcome("server-send-ok");
+                    }
+                }
+                Err(e) => s.violation("server send: bytes written are not well-formed frames (wrong length form?)", || ctx(e.clone())),
+            }
+        }
+    }
+    st.merge(s);
+}
+
 fn cut_positions(frames: &[(Sym, Vec<u8>, Vec<u8>)], total: usize) -> Vec<usize> {
     let mut v: Vec<usize> = (1..=14.min(total.saturating_sub(1))).collect();
     let mut off = 0;
@@ -631,6 +676,7 @@ pub fn run(mut cx: Ctx) -> ! {
     cx.assume("a vanished client is not detected by non-blocking receive (documented limitation): the reference does not expect a read error there");
     let mut st = Stats::default();
     handshakes(&mut st);
+    server_sends(&mut st, cx.quick());
     let small: Vec<usize> = data_lens.iter().copied().filter(|&l| l < 1000).collect();
     let big: Vec<usize> = data_lens.iter().copied().filter(|&l| l >= 1000).collect();
     endpoint_family(&mut st, maxlen, &small, nb_dev);
